@@ -13,7 +13,6 @@ package main
 
 import (
 	"context"
-	"encoding/json"
 	"fmt"
 	"math"
 	"os"
@@ -56,14 +55,14 @@ func zi(v int) string { return strconv.Itoa(v) }
 func fstr(f float64) string { return strconv.FormatFloat(f, 'g', -1, 64) }
 
 type pairDesc struct {
-	Kind   string `json:"kind"`
-	R      string `json:"r"`
-	Off    string `json:"off"`
-	C      string `json:"c"`
-	R2     string `json:"r2"`
+	Kind   string  `json:"kind"`
+	R      string  `json:"r"`
+	Off    string  `json:"off"`
+	C      string  `json:"c"`
+	R2     string  `json:"r2"`
 	Sel    [3]bool `json:"sel_r_c_r2"`
-	Shape  string `json:"shape"`
-	Corpus string `json:"corpus,omitempty"`
+	Shape  string  `json:"shape"`
+	Corpus string  `json:"corpus,omitempty"`
 }
 
 // Go-side mirror of holds for a pair, only used to name the shape of a failure.
@@ -389,7 +388,7 @@ func main() {
 	emitPair("corpus", 0x1p-60, 0x1p-61, 0x1p-59, "tiny r: offset below r is selected by both")
 
 	// ---- seeded pairs ----
-	n := f.Count(2600, 100000)
+	n := f.Count(2600, 30000)
 	for i := 0; i < n; i++ {
 		g := gen.Fork(f.Seed, i)
 		r, kind := genRatio(g)
@@ -399,7 +398,7 @@ func main() {
 	}
 	// ---- out-of-domain pairs: correspondence only ----
 	specials := []float64{math.NaN(), math.Inf(1), math.Inf(-1), -1, -0.5, -0.1, -0.9, -1.5, 1.5, 2, -2, ulps(1, 1), ulps(-1, -1), -math.SmallestNonzeroFloat64, math.MaxFloat64}
-	n2 := f.Count(300, 8000)
+	n2 := f.Count(300, 3000)
 	for i := 0; i < n2; i++ {
 		g := gen.Fork(f.Seed^0x5151, i)
 		var r float64
@@ -431,7 +430,7 @@ func main() {
 	}
 
 	// ---- real label sets: labels.Hash() and SampleOffset ----
-	nh := f.Count(400, 15000)
+	nh := f.Count(400, 5000)
 	hiHash := 0
 	for i := 0; i < nh; i++ {
 		g := gen.Fork(f.Seed^0xA5A5, i)
@@ -719,7 +718,7 @@ func main() {
 	// corpus queries: the finding through the real engine with fixed label sets
 	runQuery(0, gen.Fork(7, 0), "corpus", "r = SampleOffset of a fixed series with fl(1+fl(r-1)) > r: that series is selected by neither limit_ratio(r) nor limit_ratio(r-1)")
 	runQuery(1, gen.Fork(7, 1), "corpus-both", "r = next float above the SampleOffset of a fixed series with fl(1+fl(r-1)) <= offset: selected by both")
-	nq := f.Count(110, 3000)
+	nq := f.Count(110, 1200)
 	modes := []string{"at-offset", "at-offset", "at-offset", "exact", "exact", "generic", "generic", "special"}
 	for i := 0; i < nq; i++ {
 		g := gen.Fork(f.Seed^0xC34C34, i)
@@ -730,7 +729,5 @@ func main() {
 		"known finding (key complement-rounding): fl(1+fl(r-1)) != r, offsets between the two boundaries are selected by both or by neither of limit_ratio(r) and limit_ratio(r-1)",
 		"corpus reproduces it on AddRatioSampleWithOffset (r=0.1, r=0.3) and through the engine (r = offset of a real series)")
 	cf.Flush()
-	_ = json.Marshal
-	_ = strings.Join
 	meta.Write(f.Out)
 }
